@@ -33,6 +33,11 @@ type c01Params struct {
 	// Burst (stream stack): the client's payload is 15 small writes followed by one of 20000 bytes (a record-size
 	// ramp that has left its first step), instead of one write
 	Burst bool `json:"burst,omitempty"`
+	// ThinkMs: the server application answers only after this much (virtual) time, on every connection
+	ThinkMs int `json:"think_ms,omitempty"`
+	// PlainCache: the server's session cache is a plain map that hands out the very object it was given (the
+	// interface allows that), not the library's LRU cache; Conns may then be 3 (full, resumed, resumed)
+	PlainCache bool `json:"plain_cache,omitempty"`
 	C2S    int    `json:"c2s"`
 	S2C    int    `json:"s2c"`
 }
@@ -155,6 +160,13 @@ func drawC01(src *vs.Src) *c01Params {
 				p.Reconf = []uint16{AllSuites[src.Intn(4)]}
 			}
 		}
+	}
+	if p.Conns == 2 && p.ReconfWho == "" && src.Bool(1, 3) {
+		p.Conns = 3
+	}
+	p.PlainCache = p.Server.Cache != "" && src.Bool(1, 3)
+	if src.Bool(1, 4) {
+		p.ThinkMs = pickInt(src, []int{1500, 6000})
 	}
 	p.Client.CertVia = pickInt(src, []int{0, 0, 1, 2})
 	if p.Client.CertVia == 2 && !(len(p.Client.Certs) == 2 && p.Client.Certs[0] == "client_sig" && inList(p.Server.ClientCAs, "ca1")) {
@@ -352,6 +364,9 @@ func (c01) Run(c *Case, src *vs.Src) *Result {
 	}
 	if p.Server.Cache != "" {
 		env.TCaches["s"], env.DCaches["s"] = tlcp.NewLRUSessionCache(8), dtlcp.NewLRUSessionCache(8)
+		if p.PlainCache {
+			env.TCaches["s"], env.DCaches["s"] = &plainT{m: map[string]*tlcp.SessionState{}}, &plainD{m: map[string]*dtlcp.SessionState{}}
+		}
 	}
 	model := Negotiate(&p.Client, &p.Server)
 	cli2, srv2 := p.Client, p.Server
@@ -380,21 +395,22 @@ func (c01) Run(c *Case, src *vs.Src) *Result {
 			parts = append(parts, 64)
 		}
 	}
-	SpawnHandshakeEcho(w, pairs[0], EchoOpts{Echo: true, C2S: c2s, S2C: s2c, C2SParts: parts}, outs[0], "0")
+	think := time.Duration(p.ThinkMs) * time.Millisecond
+	SpawnHandshakeEcho(w, pairs[0], EchoOpts{Echo: true, C2S: c2s, S2C: s2c, C2SParts: parts, Think: think}, outs[0], "0")
 	reason, unf := w.Run()
 	reasons := []string{reason}
 	unfs := [][]string{unf}
 	ws := []*World{w}
-	if p.Conns == 2 && reason == vs.Done {
-		// second connection in a fresh kernel run, same caches and configuration objects' descriptions
-		w2 := NewWorld(c.Seed+1, src)
+	for k := 1; k < p.Conns && reasons[k-1] == vs.Done; k++ {
+		// next connection in a fresh kernel run, same caches and configuration objects' descriptions
+		w2 := NewWorld(c.Seed+uint64(k), src)
 		w2.K.MaxElapsed = 600 * time.Second
 		env.W = w2
-		pairs[1] = NewPair(p.Stack, env, &cli2, &srv2, "c1", "s1", "client:1001", "server:443")
-		if pairs[1].Pipe != nil {
-			pairs[1].Pipe.C.Seg, pairs[1].Pipe.S.Seg = p.Seg, p.Seg
+		pairs[k] = NewPair(p.Stack, env, &cli2, &srv2, fmt.Sprintf("c%d", k), fmt.Sprintf("s%d", k), simnet.Addr(fmt.Sprintf("client:%d", 1000+k)), "server:443")
+		if pairs[k].Pipe != nil {
+			pairs[k].Pipe.C.Seg, pairs[k].Pipe.S.Seg = p.Seg, p.Seg
 		}
-		SpawnHandshakeEcho(w2, pairs[1], EchoOpts{Echo: true, C2S: s2c, S2C: c2s}, outs[1], "1")
+		SpawnHandshakeEcho(w2, pairs[k], EchoOpts{Echo: true, C2S: s2c, S2C: c2s, Think: think}, outs[k], fmt.Sprint(k))
 		reason2, unf2 := w2.Run()
 		reasons = append(reasons, reason2)
 		unfs = append(unfs, unf2)
@@ -410,9 +426,9 @@ func (c01) Run(c *Case, src *vs.Src) *Result {
 			r.SimNs += 0
 		}
 		conn := fmt.Sprintf("conn%d", i)
-		wantResumed := i == 1 && p.Client.Cache != "" && p.Server.Cache != "" && models[0].OK &&
+		wantResumed := i >= 1 && p.Client.Cache != "" && p.Server.Cache != "" && models[0].OK &&
 			hasSuite(enabledSuites(cli2.Suites), models[0].Suite) && hasSuite(enabledSuites(srv2.Suites), models[0].Suite)
-		model := models[i]
+		model := models[min(i, 1)]
 		if wantResumed {
 			// resumption keeps what the session fixed; the application protocol is negotiated per connection
 			model.OK, model.Suite, model.ServerPeer = true, models[0].Suite, models[0].ServerPeer
